@@ -818,6 +818,10 @@ class Interpreter(BaseInterpreter[TContext, TEvent]):
             await self._send_to_actor(actor, target_event)
             return
 
+        # 🛑 A delayed send scheduled after `stop()` would outlive it.
+        if self.status == "stopped":
+            return
+
         key = str(send_id) if send_id else None
 
         async def _delayed() -> None:
